@@ -9,7 +9,8 @@ from pathlib import Path
 
 from . import common
 
-SHIM = str(Path(__file__).resolve().parent / "shim")
+# VERIF_COV_SITE: an alternative sitecustomize directory (coverage measurement of worker processes, see tools/cov/run.sh)
+SHIM = os.environ.get("VERIF_COV_SITE") or str(Path(__file__).resolve().parent / "shim")
 
 SVG_A = '<svg xmlns="http://www.w3.org/2000/svg" viewBox="0 0 100 100"><rect x="10" y="10" width="40" height="30" fill="#FF0000"/><circle cx="60" cy="60" r="20" fill="blue" opacity="0.5"/></svg>\n'
 SVG_B = '<svg xmlns="http://www.w3.org/2000/svg" viewBox="0 0 100 100"><rect x="30" y="40" width="40" height="30" fill="#00FF00"/><rect x="5" y="5" width="20" height="15" fill="#00FF00"/></svg>\n'
